@@ -713,7 +713,16 @@ func (s *Sim) grantBatch(c *Call, fault string) {
 	}
 	s.Stats.NonVacuous["C17.batch"]++
 	s.Probe(fmt.Sprintf("c17.batch>=%d", pow2floor(len(batch))))
-	mode := s.W.Extra["batchFail"] // none, some, all
+	mode := s.W.Extra["batchFail"] // none, some, all, first-batch
+	if mode == "first-batch" {
+		// every call of the first parallel batch a task releases fails, none of its later ones: code
+		// that sends its requests in several waves must keep the errors of an earlier wave
+		mode = "none"
+		if !c.Task.batchSeen {
+			mode = "all"
+		}
+	}
+	c.Task.batchSeen = true
 	var replies []chan struct{}
 	for _, b := range batch {
 		f := ""
